@@ -6,8 +6,8 @@ set -u
 cd $WT || exit 2
 git checkout -q -- . ; git clean -fdq -e _seed -e target
 DEMOCMD=$(python3 -c "import json;print(json.load(open('$S/meta$K.json'))['demo'])")
-CRATE=duckscript; echo "$DEMOCMD" | grep -q duckscriptsdk && CRATE=duckscriptsdk
-DIR=duckscript; [ $CRATE = duckscriptsdk ] && DIR=duckscript_sdk
+CRATE=$(echo "$DEMOCMD" | grep -oE '\-p [a-z_]+' | head -1 | cut -d' ' -f2); [ -z "$CRATE" ] && CRATE=duckscript
+DIR=$CRATE; [ $CRATE = duckscriptsdk ] && DIR=duckscript_sdk
 mkdir -p $DIR/tests; cp $S/demo$K.rs $DIR/tests/seed_demo$K.rs
 echo "== demo WITHOUT patch"; cargo test --offline -p $CRATE --test seed_demo$K 2>&1 | grep -E '^test result|panicked|error' | head -5; R0=${PIPESTATUS[0]}
 git apply $S/patch$K.diff || { echo "patch does not apply"; exit 2; }
